@@ -29,6 +29,7 @@ func boot(e *Env, cfg world.Config) (*world.World, *world.ProxyInst) {
 	}
 	pi := w.StartProxy("127.0.0.1:9042", contact, nil)
 	w.RunUntil(func() bool { return pi.Booted && (pi.BootErr != nil || pi.Listener != nil) }, 10*time.Minute)
+	pi.BootSync()
 	return w, pi
 }
 
